@@ -1,5 +1,295 @@
+import Casket.Model.ProxyMsg
+import Casket.Spec.ProxyMsg
+import Casket.Generated.ProxyHeaders
 import Driver.Proto
-/- Streams of C04 (stub: not built yet). -/
+/-
+Streams of C04 (byte strings in hex; a header map is `name=v1,v2;name=…`, a name without `=` has no values).
+
+  c04.req   method path rawpath opaque rawquery host remoteaddr header contentLength bodyLen bodySeed
+            targetParts(scheme,host,path,rawpath,opaque,rawquery) targetString without upRules flags cred upRepls
+            (cred = Authorization value made from the backend URL's credentials, or -; upRepls = field=pat/to,…;…)
+     out  = method scheme urlhost path rawpath opaque rawquery reqhost header contentLength body
+            (body = nobody | same | differs)
+  c04.resp  status header announced trailer bodyLen bodySeed preHeader downRules flags downRepls
+     out  = status header trailers body
+  c04.canon name        out = canonical MIME header key
+  c04.shp   hostport    out = host,port | -
+-/
 namespace Driver.C04
-def streams : List Driver.Stream := []
+open Casket.ProxyMsg Casket.ProxyMsgSpec
+
+def hopList : List Str := Casket.Generated.hopHeaderBytes
+def skipList : List Str := Casket.Generated.skipHeaderBytes
+
+def ltStr : Str → Str → Bool
+  | [], [] => false
+  | [], _ :: _ => true
+  | _ :: _, [] => false
+  | a :: as, b :: bs => if a < b then true else if b < a then false else ltStr as bs
+
+def insertSorted (x : Str) : List Str → List Str
+  | [] => [x]
+  | y :: ys => if ltStr y x then y :: insertSorted x ys else x :: y :: ys
+
+def sortStrs (l : List Str) : List Str := l.foldl (fun acc x => insertSorted x acc) []
+
+def parseHexList (s : String) : Option (List Str) :=
+  if s = "" then some [] else (s.splitOn ",").mapM Driver.unhex
+
+def parseEntry (s : String) : Option (Str × List Str) :=
+  match s.splitOn "=" with
+  | [k] => do pure (← Driver.unhex k, [])
+  | [k, vs] => do pure (← Driver.unhex k, ← (vs.splitOn ",").mapM Driver.unhex)
+  | _ => none
+
+def parseHdr (s : String) : Option Hdr :=
+  if s = "" then some [] else (s.splitOn ";").mapM parseEntry
+
+def showHdr (h : Hdr) : String :=
+  let ks := sortStrs (h.keys.filter fun k => h.vals k != [])
+  ";".intercalate (ks.map fun k =>
+    let vs := if k == sTrailer then sortStrs (h.vals k) else h.vals k
+    Driver.hex k ++ "=" ++ ",".intercalate (vs.map Driver.hex))
+
+def parseInt (s : String) : Option Int :=
+  if s.startsWith "-" then (s.drop 1).toNat?.map fun n => -(n : Int) else s.toNat?.map fun n => (n : Int)
+
+def bytes (s : String) : Str := s.toUTF8.toList
+
+def hasBrace (v : Str) : Bool := v.contains 123 || v.contains 125
+
+/-- the part of `httpserver.Replacer` the streams use: literal values, and the four placeholders of
+`transparent` when they are the whole value -/
+def mkRepl (host remote : Str) : Str → Str := fun v =>
+  if !hasBrace v then v
+  else if v == bytes "{host}" then host
+  else if v == bytes "{remote}" then
+    match splitHostPort remote with
+    | some (ip, _) => ip
+    | none => remote
+  else if v == bytes "{scheme}" then bytes "http"
+  else if v == bytes "{server_port}" then
+    match splitHostPort host with
+    | some (_, p) => p
+    | none => bytes "80"
+  else bytes "unsupported-placeholder"
+
+structure ReqCase where
+  r : Request
+  u : Upstream
+
+def bodyToken (n : Nat) : Str := if n == 0 then [] else [1]
+
+def parseURLParts (s : String) : Option URL :=
+  match s.splitOn "," with
+  | [a, b, c, d, e, f] => do
+    pure { scheme := ← Driver.unhex a, host := ← Driver.unhex b, path := ← Driver.unhex c,
+           rawPath := ← Driver.unhex d, opaq := ← Driver.unhex e, rawQuery := ← Driver.unhex f }
+  | _ => none
+
+def parsePair (s : String) : Option (Str × Str) :=
+  match s.splitOn "/" with
+  | [a, b] => do pure (← Driver.unhex a, ← Driver.unhex b)
+  | _ => none
+
+def parseReplEntry (s : String) : Option (Str × List (Str × Str)) :=
+  match s.splitOn "=" with
+  | [k, vs] => do pure (← Driver.unhex k, ← (vs.splitOn ",").mapM parsePair)
+  | _ => none
+
+/-- replacements: `field=pat/to,pat/to;field=…` (hex) -/
+def parseRepls (s : String) : Option Repls :=
+  if s = "" then some [] else (s.splitOn ";").mapM parseReplEntry
+
+def parseCred (s : String) : Option (Option Str) :=
+  if s = "-" then some none else (Driver.unhex s).map some
+
+def parseReq : List String → Option ReqCase
+  | [m, p, rp, op, q, host, ra, hdr, cl, blen, _bseed, tparts, _tstr, wo, rules, _flags, cred, repls] => do
+    let cl ← parseInt cl
+    let blen ← blen.toNat?
+    let r : Request := {
+      method := ← Driver.unhex m,
+      url := { scheme := [], host := [], path := ← Driver.unhex p, rawPath := ← Driver.unhex rp,
+               opaq := ← Driver.unhex op, rawQuery := ← Driver.unhex q },
+      host := ← Driver.unhex host, remoteAddr := ← Driver.unhex ra, header := ← parseHdr hdr,
+      contentLength := cl,
+      body := if blen == 0 && cl == 0 then none else some (bodyToken blen) }
+    let u : Upstream := { target := ← parseURLParts tparts, without := ← Driver.unhex wo,
+                          upRules := ← parseHdr rules, downRules := [],
+                          cred := ← parseCred cred, upRepls := ← parseRepls repls }
+    pure { r := r, u := u }
+  | _ => none
+
+def showBody (r : Request) : Option Str → String
+  | none => "nobody"
+  | some b => if some b == r.body || (b == [] && r.body == none) then "same" else "differs"
+
+def showReq (c : ReqCase) (o : Request) : String :=
+  "\t".intercalate [Driver.hex o.method, Driver.hex o.url.scheme, Driver.hex o.url.host, Driver.hex o.url.path,
+    Driver.hex o.url.rawPath, Driver.hex o.url.opaq, Driver.hex o.url.rawQuery, Driver.hex o.host,
+    showHdr o.header, toString o.contentLength, showBody c.r o.body]
+
+def reqModel (f : List String) : String :=
+  match parseReq f with
+  | none => "bad-case"
+  | some c =>
+    if !nonInterfering c.u.upRules || !replsDistinct c.u.upRepls then "bad-case:interfering rules"
+    else showReq c (forward hopList (mkRepl c.r.host c.r.remoteAddr) c.u c.r)
+
+def parseObservedReq (c : ReqCase) (out : String) : Option Request :=
+  match out.splitOn "\t" with
+  | [m, sch, uh, p, rp, op, q, host, hdr, cl, body] => do
+    let b : Option Str :=
+      if body == "nobody" then none
+      else if body == "same" then some (match c.r.body with | some b => b | none => [])
+      else some [0, 0]
+    pure { method := ← Driver.unhex m,
+           url := { scheme := ← Driver.unhex sch, host := ← Driver.unhex uh, path := ← Driver.unhex p,
+                    rawPath := ← Driver.unhex rp, opaq := ← Driver.unhex op, rawQuery := ← Driver.unhex q },
+           host := ← Driver.unhex host, remoteAddr := c.r.remoteAddr, header := ← parseHdr hdr,
+           contentLength := ← parseInt cl, body := b }
+  | _ => none
+
+def reqJudge (f : List String) (out : String) : String :=
+  match parseReq f with
+  | none => "bad:unparsable:case"
+  | some c =>
+    match parseObservedReq c out with
+    | none => "bad:unparsable:" ++ out
+    | some o => verdictReq specHop (mkRepl c.r.host c.r.remoteAddr) c.u c.r o
+
+/-
+  c04.retry  (the 18 fields of c04.req) target2Parts target2String cred2
+     two backends (policy first), the first one fails before reading the body, the second answers
+     out = <attempt 1 as in c04.req> TAB | TAB <attempt 2>
+-/
+def parseRetryCase (f : List String) : Option (ReqCase × Upstream) :=
+  if f.length == 21 then do
+    let c ← parseReq (f.take 18)
+    let t2 ← parseURLParts (f.getD 18 "")
+    pure (c, { c.u with target := t2, cred := ← parseCred (f.getD 20 "") })
+  else none
+
+def retryModel (f : List String) : String :=
+  match parseRetryCase f with
+  | none => "bad-case"
+  | some (c, u2) =>
+    if !nonInterfering c.u.upRules || !replsDistinct c.u.upRepls then "bad-case:interfering rules"
+    else
+      let (o1, o2) := forwardRetry hopList (mkRepl c.r.host c.r.remoteAddr) c.u u2 c.r
+      showReq c o1 ++ "\t|\t" ++ showReq c o2
+
+def splitAtBar : List String → List String → List String × List String
+  | [], acc => (acc.reverse, [])
+  | "|" :: rest, acc => (acc.reverse, rest)
+  | x :: rest, acc => splitAtBar rest (x :: acc)
+
+def retryJudge (f : List String) (out : String) : String :=
+  if out.endsWith "attempts-on-the-same-backend-differ" then
+    "bad:retry-attempts-differ:two attempts on the same backend were handed different requests (headers, URL or body)" else
+  match parseRetryCase f with
+  | none => "bad:unparsable:case"
+  | some (c, u2) =>
+    let (a1, a2) := splitAtBar (out.splitOn "\t") []
+    match parseObservedReq c ("\t".intercalate a1), parseObservedReq c ("\t".intercalate a2) with
+    | some o1, some o2 =>
+      let v1 := verdictReq specHop (mkRepl c.r.host c.r.remoteAddr) c.u c.r o1
+      if v1 != "ok" then v1
+      else
+        let v2 := verdictReq specHop (mkRepl c.r.host c.r.remoteAddr) u2 c.r o2
+        if v2 != "ok" then v2 ++ " (second attempt)" else "ok"
+    | _, _ => "bad:unparsable:" ++ out
+
+structure RespCase where
+  res : Response
+  pre : Hdr
+  down : Rules
+  dr : Repls
+
+def parseResp : List String → Option RespCase
+  | [st, hdr, ann, tr, _blen, _bseed, pre, rules, _flags, repls] => do
+    pure { res := { status := ← st.toNat?, header := ← parseHdr hdr, announced := ← parseHexList ann,
+                    trailer := ← parseHdr tr },
+           pre := ← parseHdr pre, down := ← parseHdr rules, dr := ← parseRepls repls }
+  | _ => none
+
+def respModel (f : List String) : String :=
+  match parseResp f with
+  | none => "bad-case"
+  | some c =>
+    if !nonInterfering c.down || !replsDistinct c.dr then "bad-case:interfering rules"
+    else
+      let v := respond hopList skipList (mkRepl [] []) c.down c.dr c.pre c.res
+      "\t".intercalate [toString v.status, showHdr v.header, showHdr (clientTrailers v), "same"]
+
+def respJudge (f : List String) (out : String) : String :=
+  match parseResp f, out.splitOn "\t" with
+  | some c, [st, hdr, tr, body] =>
+    match st.toNat?, parseHdr hdr, parseHdr tr with
+    | some st, some hdr, some tr =>
+      if body != "same" then "bad:body:changed"
+      else verdictResp specHop specSkip (mkRepl [] []) c.down c.dr c.pre c.res st hdr tr
+    | _, _, _ => "bad:unparsable:" ++ out
+  | _, _ => "bad:unparsable:" ++ out
+
+/-
+  c04.wire  method path rawpath query bodyLen bodySeed chunk upstream status respLen respSeed respChunked announced unannounced
+     out = method path-at-backend query-at-backend request-body status response-body trailers
+  The model's part is the path (Director of upstream block A or B); everything else must arrive unchanged.
+-/
+def wireExpected (f : List String) : Option String :=
+  match f with
+  | [m, p, _rp, q, _bl, _bs, _ch, ups, st, _rl, _rs, _rc, ann, unann] => do
+    let path ← Driver.unhex p
+    let t : URL := { scheme := sHttp, host := [], path := if ups == "B" then bytes "/base" else [], rawPath := [], opaq := [], rawQuery := [] }
+    let wo : Str := if ups == "B" then bytes "/api" else []
+    let o := director t wo { scheme := [], host := [], path := path, rawPath := [], opaq := [], rawQuery := [] }
+    let tr : Hdr := (← parseHdr ann) ++ (← parseHdr unann)
+    pure ("\t".intercalate [m, Driver.hex o.path, q, "same", st, "same", showHdr tr])
+  | _ => none
+
+def wireModel (f : List String) : String := (wireExpected f).getD "bad-case"
+
+def wireJudge (f : List String) (out : String) : String :=
+  match wireExpected f with
+  | none => "bad:unparsable:case"
+  | some e =>
+    if out == e then "ok"
+    else
+      match e.splitOn "\t", out.splitOn "\t" with
+      | [m, p, q, b, st, rb, tr], [m', p', q', b', st', rb', tr'] =>
+        if m != m' then "bad:method:changed on the wire"
+        else if p != p' then "bad:path:not base + (path minus without) on the wire"
+        else if q != q' then "bad:query:changed on the wire"
+        else if b != b' then "bad:body:request body changed on the wire"
+        else if st != st' then "bad:status:changed on the wire"
+        else if rb != rb' then "bad:body:response body changed on the wire"
+        else if tr != tr' then "bad:trailer:changed on the wire"
+        else "bad:unparsable:" ++ out
+      | _, _ => "bad:unparsable:" ++ out
+
+def canonModel : List String → String
+  | [h] => match Driver.unhex h with
+    | some s => Driver.hex (canon s)
+    | none => "bad-case"
+  | _ => "bad-case"
+
+def shpModel : List String → String
+  | [h] => match Driver.unhex h with
+    | some s => match splitHostPort s with
+      | some (a, b) => Driver.hex a ++ "," ++ Driver.hex b
+      | none => "-"
+    | none => "bad-case"
+  | _ => "bad-case"
+
+def streams : List Driver.Stream := [
+  { name := "c04.req", model := reqModel, judge := reqJudge },
+  { name := "c04.resp", model := respModel, judge := respJudge },
+  { name := "c04.retry", model := retryModel, judge := retryJudge },
+  { name := "c04.wire", model := wireModel, judge := wireJudge },
+  { name := "c04.canon", model := canonModel, judge := fun _ _ => "ok" },
+  { name := "c04.shp", model := shpModel, judge := fun _ _ => "ok" }
+]
+
 end Driver.C04
